@@ -64,6 +64,9 @@ def main():
     if rc != 0:
         print('patch does not apply in /repo:', out); return 2
     caught = {}
+    # the checks rewrite evidence/<id>.json: what a run against a patched tree writes must never end up committed
+    ev = V / 'evidence' / f'{prop}.json'
+    ev_backup = ev.read_bytes() if ev.exists() else None
     try:
         for tier in ('quick', 'thorough'):
             rc, out = sh([str(V / 'check'), prop, tier], cwd=V, timeout=7200)
@@ -80,6 +83,8 @@ def main():
                 break
     finally:
         sh(['git', '-C', '/repo', 'checkout', '--', '.'])
+        if ev_backup is not None:
+            ev.write_bytes(ev_backup)
     report['checks'] = caught
     if keep:
         d = V / 'seeded' / keep
